@@ -13,14 +13,26 @@
 EXTENDS Integers, Sequences, TLC, Json, IOUtils
 
 Rec == ndJsonDeserialize(IOEnv.TRACE)
+Devs == {Rec[1].devs[i] : i \in 1..Len(Rec[1].devs)}
 VARIABLE l
-Init == l = 1
+Init == l = 2
+
+(***************************************************************************)
+(* F-C03-2 (open): sibling chains are walked recursively (builder, arena   *)
+(* delete, index, projector, tree collect); a note with about ten thousand *)
+(* sibling blocks overflows the stack and aborts the process.  Guard: the  *)
+(* text was generated with at least 5000 sibling blocks, and the only      *)
+(* failure is the abort of the process.                                    *)
+(***************************************************************************)
+Explained(e) == "F-C03-2" \in Devs /\ e.siblings >= 5000 /\ \A i \in 1..Len(e.bad) : e.bad[i] = <<"process", "abort">>
+
 Step == /\ l <= Len(Rec) /\ l' = l + 1
         /\ LET e == Rec[l] IN
            IF e.ev = "Total" /\ e.bad # <<>>
-           THEN PrintT(<<"VERDICT", ToJson([i |-> e.i, bad |-> e.bad])>>)
+           THEN PrintT(<<"VERDICT", ToJson([i |-> e.i, ideal |-> e.bad, bad |-> IF Explained(e) THEN <<>> ELSE e.bad,
+                                            explained |-> IF Explained(e) THEN {"F-C03-2"} ELSE {}])>>)
            ELSE TRUE
 Spec == Init /\ [][Step]_l
-Accepted == IF TLCGet("stats").diameter - 1 = Len(Rec) THEN PrintT(<<"ACCEPTED", Len(Rec)>>)
+Accepted == IF TLCGet("stats").diameter = Len(Rec) THEN PrintT(<<"ACCEPTED", Len(Rec)>>)
             ELSE PrintT(<<"UNCONSUMED", TLCGet("stats").diameter, Len(Rec)>>) /\ FALSE
 =============================================================================
